@@ -322,6 +322,19 @@ def F44():
     return p == [0, 1, 0, 1] and q == [[0, 1, 0, 1], [0, 1, 0, 1]], f"targets given as an (n,1) column: predict {p}, DeepARTMAP.predict {q}"
 
 
+def F45():
+    import tempfile
+    import matplotlib
+    matplotlib.use("Agg")
+    X = cc(np.random.default_rng(0).random((12, 2)))
+    with quiet(), tempfile.TemporaryDirectory() as d:
+        m = FuzzyART(0.7, 0.01, 1.0).fit(X)
+        m.fit_gif(X, filename=d + "/f.gif", n_cluster_estimate=24, fps=50)
+    cnt = [int(t) for t in m.weight_sample_counter_]
+    hist = np.bincount(m.labels_, minlength=len(m.W)).tolist()
+    return cnt == hist and m.sample_counter_ == 12, f"fit then fit_gif: counters {cnt}, label histogram {hist}, sample_counter_ {m.sample_counter_} for 12 samples"
+
+
 ALL = {k: v for k, v in list(globals().items()) if k[0] == "F" and k[1:3].isdigit()}
 
 if __name__ == "__main__":
